@@ -1,6 +1,51 @@
-(* Props/Properties_C09.v - statements only; see DESIGN.md section 8 C09. *)
-From Adm Require Import Heap.Exec Heap.More gen.PlansGen Heap.PlanChecks.
+(* Props/Properties_C09.v - C09: deepCopy yields an equal and fully independent document.
+   Statements only; proofs in Heap/Copy.v.  The model of copy(), copyAllElements, deepCopy and deepCopyTo
+   (Heap/More.v) is tied to libadm by the differential run (copies compared with their originals element by element
+   under the handle renaming, XML of both, parents, disjointness, mutation histories on either side afterwards).
+   Proved for all inputs: what copy() keeps (the concrete kind of HOA pack formats included); that every copy is a
+   fresh handle, so no element is shared; that the new document lists the copies of the members in the same order
+   and carries the version; that a failed copy leaves no trace.  Partial (suffix _partial): that the re-created
+   reference lists are the images of the original ones - copyAllElements re-links the copies through the public
+   addReference / setReference calls, whose effect on fresh elements is not yet proved in general - and independence
+   under later mutations are decided by the differential run. *)
+From Adm Require Import Heap.Exec Heap.More Heap.Frame Heap.Copy.
 
-Theorem C09_plans_recognised : plans_problems = [] /\ add_plan_complete gen_plans = true /\ plans_typed gen_plans = true.
-Proof. exact (conj plans_recognised (conj gen_add_plan_complete gen_plans_typed)). Qed.
-Print Assumptions C09_plans_recognised.
+Theorem C09_copy_keeps_everything_but_links : forall e,
+  ekind (copy_of e) = ekind e /\ ehoa (copy_of e) = ehoa e /\ eid (copy_of e) = eid e /\ etd (copy_of e) = etd e /\
+  eblocks (copy_of e) = eblocks e /\ estart (copy_of e) = estart e /\ eend (copy_of e) = eend e /\
+  eparams (copy_of e) = eparams e /\ etag (copy_of e) = etag e /\
+  eparent (copy_of e) = None /\ forall rk, erefs (copy_of e) rk = [].
+Proof. exact copy_of_fields. Qed.
+Print Assumptions C09_copy_keeps_everything_but_links.
+
+Theorem C09_copy_phase_partial : forall mp s s' u, m_iter (fun p => copy_elem (fst p) (snd p)) mp s = (s', inl u) ->
+  NoDup (map snd mp) ->
+  (forall p, In p mp -> get_elem s (snd p) = None) /\
+  (forall p, In p mp -> (forall q, In q mp -> fst p <> snd q) ->
+             exists e, get_elem s (fst p) = Some e /\ get_elem s' (snd p) = Some (copy_of e)) /\
+  (forall x, ~ In x (map snd mp) -> get_elem s' x = get_elem s x).
+Proof. exact copy_phase. Qed.
+Print Assumptions C09_copy_phase_partial.
+
+Theorem C09_copies_are_new_objects : forall P d dnew base s s' u, deep_copy P d dnew base s = (s', inl u) ->
+  exists x, get_doc s d = Some x /\
+    forall p, In p (number_from base (flat_map (fun k => members x k) kind_order)) -> get_elem s (snd p) = None.
+Proof. exact deep_copy_copies_are_fresh. Qed.
+Print Assumptions C09_copies_are_new_objects.
+
+Theorem C09_copy_handles_distinct : forall l base, NoDup (map snd (number_from base l)) /\ map fst (number_from base l) = l.
+Proof. exact (fun l base => conj (number_from_nodup l base) (proj1 (number_from_spec l base))). Qed.
+Print Assumptions C09_copy_handles_distinct.
+
+Theorem C09_new_document_lists_the_copies : forall P d dnew base s s' u, deep_copy P d dnew base s = (s', inl u) ->
+  get_doc s dnew = None /\
+  exists x, get_doc s d = Some x /\
+    let mp := number_from base (flat_map (fun k => members x k) kind_order) in
+    get_doc s' dnew = Some (mkDoc (fun k => map (fun h => match assoc_pos h mp with Some c => c | None => h end) (members x k))
+                                  (dversion x)).
+Proof. exact deep_copy_document. Qed.
+Print Assumptions C09_new_document_lists_the_copies.
+
+Theorem C09_failed_copy_leaves_no_trace : forall P d dnew base s s' e, deep_copy P d dnew base s = (s', inr e) -> s' = s.
+Proof. exact deep_copy_failure_changes_nothing. Qed.
+Print Assumptions C09_failed_copy_leaves_no_trace.
